@@ -91,7 +91,7 @@ func c10Leaves(front string) []c10leaf {
 }
 
 func C10_Jobs() []string {
-	return []string{"paths/map", "paths/validate", "paths/json", "missing/map", "missing/json", "flat/json", "flat/zhttp-json", "cross-front-end", "issuepath-stale", "long-slice-paths", "sanitize-root-first", "issuepath", "sanitize", "first-and-unique/map", "first-and-unique/validate", "root-key"}
+	return []string{"paths/map", "paths/validate", "paths/json", "missing/map", "missing/json", "flat/json", "flat/zhttp-json", "cross-front-end", "issuepath-stale", "long-slice-paths", "sanitize-root-first", "empty-record/map", "empty-record/nested", "empty-record/json", "issuepath", "sanitize", "first-and-unique/map", "first-and-unique/validate", "root-key"}
 }
 func C10_Covers() []string { return []string{"some-issues"} }
 
@@ -336,6 +336,37 @@ func C10_Run(job string) {
 			c10WellFormed(errs)
 			v.Assert(len(errs["c"]) == 1 && len(errs["alias"]) == 0, "C10:issuepath-moved-an-unrelated-issue")
 		}
+		v.Cover("some-issues")
+	case "empty-record":
+		// an empty record: every required leaf is reported under its documented key
+		var errs z.ZogIssueMap
+		front := "map"
+		switch b {
+		case "map":
+			var d c10L2
+			errs = c10L2Schema().Parse(map[string]any{}, &d)
+		case "json":
+			front = "json"
+			var d c10L2
+			errs = c10L2Schema().Parse(zjson.Decode(strings.NewReader("{}")), &d)
+		case "nested":
+			var d struct {
+				In c10L2 `zog:"zin"`
+			}
+			errs = z.Struct(z.Schema{"in": c10L2Schema()}).Parse(map[string]any{"zin": map[string]any{}}, &d)
+		}
+		c10WellFormed(errs)
+		prefix := ""
+		if b == "nested" {
+			prefix = "zin."
+		}
+		n := 0
+		for _, f := range []struct{ n, j, zt string }{{"v", "jv", "zv"}, {"w", "", "zw"}, {"x", "jx", ""}, {"y", "", ""}} {
+			key := prefix + c10Key(front, f.j, f.zt, f.n)
+			v.Assert(len(errs[key]) == 1 && errs[key][0].Code == "required", "C10:issue-not-at-documented-path")
+			n++
+		}
+		v.Assert(len(errs) == n+1, "C10:issues-at-undocumented-paths")
 		v.Cover("some-issues")
 	case "long-slice-paths":
 		// positions above 9 are written in decimal
